@@ -1,6 +1,6 @@
 (* C16 - Selection expressions follow Boolean semantics exactly.
    Only statements, closed by lemmas proved elsewhere. *)
-From Verif Require Import Base.Prelude Model.Expr Proofs.ExprParser Proofs.ExprLexer Proofs.ExprMatch.
+From Verif Require Import Base.Prelude Model.Expr Proofs.ExprParser Proofs.ExprLexer Proofs.ExprMatch Proofs.FactsExpr Gen.ExprFacts.
 
 (* Every string is rejected or compiled to THE formula the documented grammar
    assigns to THE tokenisation of the string; never a third outcome. *)
@@ -69,6 +69,14 @@ Theorem C16_eval_boolean : forall m,
   (forall a b, eval m (AOr a b) = orb (eval m a) (eval m b)).
 Proof. exact eval_boolean. Qed.
 
+(* the alphabet of the model is the one the scanner uses (facts re-extracted from the source on
+   every run: blank characters, identifier punctuation, \w, the three keywords) *)
+Theorem C16_lexer_alphabet_is_the_sources :
+  seteqN x_ws ws_chars = true /\ seteqN x_ident_punct ident_punct = true /\
+  x_ident_has_word = true /\ x_keywords = [kw_and; kw_not; kw_or].
+Proof. exact (conj ws_ok (conj ident_punct_ok (conj ident_has_word_ok keywords_ok))). Qed.
+
+Print Assumptions C16_lexer_alphabet_is_the_sources.
 Print Assumptions C16_compile.
 Print Assumptions C16_denotation_unique.
 Print Assumptions C16_complete.
